@@ -23,7 +23,7 @@ ensure_cfg() {
 		return 0
 	fi
 	rm -rf "$dir"; mkdir -p "$dir"
-	if ! cmake -S "$REPO" -B "$dir" -DCMAKE_BUILD_TYPE=Debug -DBUILD_APPS=OFF -DDISABLE_WERROR=ON \
+	if ! cmake -S "$REPO" -B "$dir" -DCMAKE_BUILD_TYPE=Debug -DBUILD_APPS=OFF -DDISABLE_WERROR=ON -DCMAKE_EXPORT_COMPILE_COMMANDS=ON \
 		-DBUILD_TESTING=OFF -DCMAKE_C_COMPILER=clang "$@" >"$dir/cmake.log" 2>&1; then
 		echo "cmake configure failed for $name; see $dir/cmake.log" >&2
 		tail -20 "$dir/cmake.log" >&2
@@ -69,4 +69,27 @@ variant_flags() {
 		;;
 	*) echo "unknown variant $1" >&2; return 2;;
 	esac
+}
+
+# the library's source list as cmake sees it (so that a source file added to / removed from the build is followed);
+# falls back to the list above
+jsonc_sources() {
+	local cc=$B/$1/compile_commands.json
+	if [ -f "$cc" ]; then
+		python3 - "$cc" "$REPO" <<'PY' && return 0
+import json, os, sys
+cc, repo = sys.argv[1], os.path.realpath(sys.argv[2])
+names = []
+for e in json.load(open(cc)):
+    f = os.path.realpath(e["file"])
+    if os.path.dirname(f) == repo and f.endswith(".c"):
+        n = os.path.basename(f)[:-2]
+        if n not in names:
+            names.append(n)
+if not names:
+    sys.exit(1)
+print(" ".join(names))
+PY
+	fi
+	echo "$JSONC_SRCS"
 }
